@@ -200,8 +200,13 @@ int read_header(sqfs_istream_t *fp, tar_header_decoded_t *out)
 			goto fail;
 		}
 
-		if ((size_t)ret < sizeof(hdr))
+		if ((size_t)ret < sizeof(hdr)) {
+			/* trailing garbage that is shorter than a header
+			   is not a clean end of the archive */
+			if (ret > 0 && !is_memory_zero(&hdr, (size_t)ret))
+				goto fail_short;
 			goto out_eof;
+		}
 
 		if (is_memory_zero(&hdr, sizeof(hdr))) {
 			if (prev_was_zero)
@@ -314,6 +319,9 @@ fail_pax_len:
 	goto fail;
 fail_sparse:
 	fputs("sparse file map does not fit the size of the record!\n", stderr);
+	goto fail;
+fail_short:
+	fputs("unexpected end of input inside a tar header!\n", stderr);
 	goto fail;
 fail_magic:
 	fputs("input is not a ustar tar archive!\n", stderr);
